@@ -20,4 +20,7 @@ OnlyReparseResets == (~st.reparsed) => \A k \in DOMAIN hist : Adds(Start, hist[k
 ReparsedIffCalled == st.reparsed <=> \E k \in DOMAIN hist : Reparses(hist[k])
 Monotone == [][(~Reparses(hist'[Len(hist')])) => st.cols \subseteq st'.cols]_vars
 Emit == (Len(hist) = EmitAt) => PrintT("@@E " \o ToJson(hist))
+\* every reachable (history, frame state): used to pick, for each distinct state of the frames, a shortest history that reaches it
+SetToSeq(S) == CHOOSE f \in [1..Cardinality(S) -> S] : \A a, b \in 1..Cardinality(S) : a # b => f[a] # f[b]
+EmitState == PrintT("@@E " \o ToJson([hist |-> hist, cols |-> SetToSeq(st.cols), reparsed |-> st.reparsed]))
 =============================================================================
